@@ -112,6 +112,10 @@ def specfn_decl(ex, sf):
     sorts = [sort_of(ctx, ty) for _, ty in sf.params]
     mode = ex.ctx.options.get("specfn_encoding", "naive")
     if mode == "recfun":
+        # z3 5.1 answers `unsat` for satisfiable formulas that apply a RecFunction to a lambda array
+        # (found by a mutation self-test); the encoding is kept only for experiments and is never used.
+        raise Unsupported("recfun encoding is disabled: unsound in z3 5.1 with lambda arguments")
+    if mode == "recfun":
         rkey = (sf.name, tuple(str(x) for x in sorts))
         if rkey in _RECFUNS:
             ctx.spec_cache[sf.name] = _RECFUNS[rkey]
@@ -313,12 +317,53 @@ def sb_positions(ex, node, st):
     return pos
 
 
+def sb_isnan(ex, node, st):
+    return ex.fm.isnan(ex.tofloat(ex.eval(node.args[0], st)))
+
+
+def sb_isinf(ex, node, st):
+    return ex.fm.isinf(ex.tofloat(ex.eval(node.args[0], st)))
+
+
 SPEC_BUILTINS = {
+    "isnan": sb_isnan, "isinf": sb_isinf,
     "positions": sb_positions,
     "forall": sb_forall, "exists": lambda ex, n, st: sb_forall(ex, n, st, exists=True), "old": sb_old, "pre": sb_pre,
     "implies": sb_implies, "ite": sb_ite, "iff": sb_iff, "written": sb_written, "real": sb_real, "rint": sb_rint,
     "isint": sb_isint, "let": sb_let, "arr": sb_arr,
 }
+
+
+def _has_lambda(t, seen=None):
+    seen = set() if seen is None else seen
+    if t.get_id() in seen:
+        return False
+    seen.add(t.get_id())
+    if z3.is_quantifier(t):
+        return t.is_lambda() or _has_lambda(t.body(), seen)
+    return any(_has_lambda(c, seen) for c in t.children()) if z3.is_app(t) else False
+
+
+def materialise(ex, st, term):
+    """Array arguments of spec functions are never lambda terms: a fresh array constant with a
+    quantified defining axiom is passed instead (robust e-matching; avoids solver corner cases)."""
+    if not _has_lambda(term):
+        return term
+    cache = ex.ctx.__dict__.setdefault("mat_cache", {})
+    key = term.get_id()
+    if key in cache:
+        cst, ax = cache[key]
+    else:
+        cst = fresh("arr", term.sort())
+        nd = z3.Z3_get_array_arity(term.sort().ctx_ref(), term.sort().ast)
+        ks = [z3.Int(f"k!m{i}") for i in range(nd)]
+        ax = z3.ForAll(ks, sel(cst, *ks) == sel(term, *ks), patterns=[sel(cst, *ks)])
+        cache[key] = (cst, ax)
+        ex.ctx.keep = getattr(ex.ctx, "keep", [])
+        ex.ctx.keep.append(term)
+    if not any(h.eq(ax) for h in st.pc[-40:]):
+        st.assume(ax, tag="def:lambda")
+    return cst
 
 
 def spec_call(ex, node, st):
@@ -337,7 +382,7 @@ def spec_call(ex, node, st):
             if isinstance(v, Arr):
                 if v.view is not None:
                     v = ex.copy_array(st, v)
-                args.append(st.heap[v.oid])
+                args.append(materialise(ex, st, st.heap[v.oid]))
             else:
                 args.append(_coerce(ex, v, ty))
         return f(*args)
